@@ -78,16 +78,22 @@ vars == <<running, file, reported, last>>
 (*  rewrite add / delete / update:   rw  subsets of {r1, r2, r3}           *)
 (*  PUT /control/blocked_services/update (+ deprecated .../set):           *)
 (*                                   svc none | s1 | s12 | s1p (paused by schedule) *)
+(*                                   (unknown: an id that names no service -- silent;    *)
+(*                                    badsched: a day range that ends before it starts)  *)
 (*  POST /control/access/set:        acc none | dis | host | allow         *)
 (*  clients add / update / delete:   cl  c1, c2 : absent | a | b           *)
 (*  PUT /control/querylog/config/update:  qlog def | off | anon | ivl7 | ign *)
 (*  PUT /control/stats/config/update:     stats def | off | ivl7 | ign     *)
 (*  POST /control/i18n/change_language, PUT /control/profile/update:       *)
 (*                                   lang none | en | de ; theme auto | dark | light *)
+(*  POST /control/dhcp/set_config (never enabled: the rig must not serve   *)
+(*  DHCP on the host), add / remove_static_lease:                          *)
+(*                                   dhcp none | cfg1 | cfg2 ; leases subsets of {l1, l2} *)
+(*                                   ("file" of the leases is data/leases.json)           *)
 (***************************************************************************)
 Comps == {"ups", "boot", "blk", "blkttl", "prot", "rl", "rl4", "ecs", "dnssec", "noaaaa", "csize", "cttl",
           "upmode", "lptr", "useptr", "uto", "fcfg", "rules", "lists", "sb", "par", "ss", "rw", "svc", "acc",
-          "cl", "qlog", "stats", "lang", "theme"}
+          "cl", "qlog", "stats", "lang", "theme", "dhcp", "leases"}
 
 \* The settings of the deployment the harness starts from (a fresh
 \* installation bound to loopback).
@@ -96,11 +102,11 @@ Init0 == [ups |-> "A", boot |-> "b0", blk |-> "default", blkttl |-> "t10", prot 
           upmode |-> "lb", lptr |-> "none", useptr |-> "off", uto |-> "10", fcfg |-> "on-24",
           rules |-> "none", lists |-> [L1 |-> "absent", L2 |-> "absent"], sb |-> "off", par |-> "off",
           ss |-> "off", rw |-> {}, svc |-> "none", acc |-> "none", cl |-> [c1 |-> "absent", c2 |-> "absent"],
-          qlog |-> "def", stats |-> "def", lang |-> "none", theme |-> "auto"]
+          qlog |-> "def", stats |-> "def", lang |-> "none", theme |-> "auto", dhcp |-> "none", leases |-> {}]
 
 \* Components set as a whole by one request carrying the new value
 \* (label op "set").
-Scalars == Comps \ {"lists", "rw", "cl", "theme"}
+Scalars == Comps \ {"lists", "rw", "cl", "theme", "leases"}
 
 Good == [ups |-> {"A", "B"}, boot |-> {"b0", "b1"},
          blk |-> {"default", "nxdomain", "refused", "null_ip", "custom1"},
@@ -110,40 +116,42 @@ Good == [ups |-> {"A", "B"}, boot |-> {"b0", "b1"},
          lptr |-> {"none", "L"}, useptr |-> {"off", "on"}, uto |-> {"10", "3"},
          fcfg |-> {"on-24", "off-24", "on-72", "on-0"}, rules |-> {"none", "r1", "r12"},
          sb |-> {"off", "on"}, par |-> {"off", "on"}, ss |-> {"off", "all", "nogoogle"},
-         svc |-> {"none", "s1", "s12", "s1p"}, acc |-> {"none", "dis", "host", "allow"},
+         svc |-> {"none", "s1", "s12", "s1p"}, acc |-> {"none", "dis", "host", "allow", "nohosts"},
          qlog |-> {"def", "off", "anon", "ivl7", "ign"}, stats |-> {"def", "off", "ivl7", "ign"},
-         lang |-> {"en", "de"}]
+         lang |-> {"en", "de"}, dhcp |-> {"cfg1", "cfg2"}]
 
 \* Values used only by the longer random histories of direction B.
 Extra == [ups |-> {}, boot |-> {}, blk |-> {"custom2"}, blkttl |-> {"t3600"}, prot |-> {}, rl |-> {"5"},
           rl4 |-> {"32"}, ecs |-> {}, dnssec |-> {}, noaaaa |-> {}, csize |-> {}, cttl |-> {"0-600"},
           upmode |-> {}, lptr |-> {}, useptr |-> {}, uto |-> {"30"}, fcfg |-> {"off-72", "on-168"},
           rules |-> {"r2"}, sb |-> {}, par |-> {}, ss |-> {}, svc |-> {"s2"}, acc |-> {}, qlog |-> {"ivl1"},
-          stats |-> {"ivl30"}, lang |-> {"fr"}]
+          stats |-> {"ivl30"}, lang |-> {"fr"}, dhcp |-> {}]
 
 Bad == [ups |-> {}, boot |-> {}, blk |-> {"bogus"}, blkttl |-> {}, prot |-> {}, rl |-> {}, rl4 |-> {"33"},
         ecs |-> {}, dnssec |-> {}, noaaaa |-> {}, csize |-> {}, cttl |-> {}, upmode |-> {"bogus"},
         lptr |-> {}, useptr |-> {}, uto |-> {"0"}, fcfg |-> {"on-5", "off-5"}, rules |-> {}, sb |-> {},
         par |-> {}, ss |-> {}, svc |-> {"badsched"}, acc |-> {"dup", "both"}, qlog |-> {"noenabled"},
-        stats |-> {"noenabled"}, lang |-> {"xx"}]
+        stats |-> {"noenabled"}, lang |-> {"xx"}, dhcp |-> {}]
 
 Silent == [ups |-> {"bad"}, boot |-> {"bad"}, blk |-> {}, blkttl |-> {}, prot |-> {}, rl |-> {}, rl4 |-> {},
            ecs |-> {}, dnssec |-> {}, noaaaa |-> {}, csize |-> {}, cttl |-> {"3600-60"}, upmode |-> {},
            lptr |-> {}, useptr |-> {}, uto |-> {}, fcfg |-> {}, rules |-> {}, sb |-> {}, par |-> {},
-           ss |-> {}, svc |-> {}, acc |-> {}, qlog |-> {}, stats |-> {}, lang |-> {}]
+           ss |-> {}, svc |-> {"unknown"}, acc |-> {}, qlog |-> {}, stats |-> {}, lang |-> {}, dhcp |-> {}]
 
 GoodOf(c) == IF Deep THEN Good[c] \cup Extra[c] ELSE Good[c]
 
 \* Endpoints that take a JSON body: a body that is not JSON changes nothing,
 \* whatever the answer.
 Endpoints == {"dns_config", "filtering_config", "set_rules", "add_url", "set_url", "safesearch", "rewrite_add",
-              "services", "access", "clients_add", "querylog", "stats", "language", "profile"}
+              "services", "access", "clients_add", "querylog", "stats", "language", "profile", "dhcp_set_config",
+              "dhcp_add_lease"}
 
 ListItems == {"L1", "L2"}
 RwItems == IF Deep THEN {"r1", "r2", "r3"} ELSE {"r1", "r2"}
 Clients == {"c1", "c2"}
 ClientVariants == {"a", "b"}
 Themes == {"auto", "dark", "light"}
+Leases == {"l1", "l2"}
 
 (***************************************************************************)
 (* Labels.  All labels are records of five strings.                        *)
@@ -162,6 +170,7 @@ ChangeLabels ==
     \cup {L("ss_enable", "", "", "", ""), L("ss_disable", "", "", "", "")}
     \cup {L("svc_legacy", "", "", v, "") : v \in {"none", "s1", "s12"}}
     \cup {L("profile", "", "", l, t) : l \in GoodOf("lang"), t \in Themes}
+    \cup {L(op, "", "", k, "") : op \in {"lease_add", "lease_rm"}, k \in Leases}
 
 WellTyped(lab) == lab.op # "set" \/ lab.v \in GoodOf(lab.c)
 
@@ -184,7 +193,8 @@ SsDisable(v) == CASE v = "all" -> "off" [] v = "nogoogle" -> "offng" [] OTHER ->
 (* and st the settings afterwards (in all three places).                   *)
 (***************************************************************************)
 Out(s, lab) ==
-    CASE lab.op = "set" ->
+    CASE lab.op = "set" /\ lab.c = "dhcp" /\ s.leases # {} -> {}
+      [] lab.op = "set" ->
             IF lab.v \in GoodOf(lab.c) THEN {ok([s EXCEPT ![lab.c] = lab.v])}
             ELSE IF lab.v \in Bad[lab.c] THEN {rej(s)}
             ELSE IF lab.v \in Silent[lab.c] THEN {rej(s), ok([s EXCEPT ![lab.c] = lab.v])}
@@ -221,6 +231,15 @@ Out(s, lab) ==
       [] lab.op = "ss_disable" -> {ok([s EXCEPT !.ss = SsDisable(@)])}
       \* The deprecated list-only call replaces the ids and keeps the schedule.
       [] lab.op = "svc_legacy" -> IF s.svc = "s1p" THEN {} ELSE {ok([s EXCEPT !.svc = lab.v])}
+      \* Static leases are driven only on the network of cfg1 (the addresses
+      \* of l1, l2 lie in it), and the DHCP settings only while there is no
+      \* lease: what a lease means after its network is gone is not documented.
+      [] lab.op = "lease_add" ->
+            IF s.dhcp # "cfg1" THEN {}
+            ELSE IF lab.v \notin s.leases THEN {ok([s EXCEPT !.leases = @ \cup {lab.v}])} ELSE either(s)
+      [] lab.op = "lease_rm" ->
+            IF s.dhcp # "cfg1" THEN {}
+            ELSE IF lab.v \in s.leases THEN {ok([s EXCEPT !.leases = @ \ {lab.v}])} ELSE either(s)
       [] lab.op = "profile" ->
             IF lab.v \in GoodOf("lang") /\ lab.w \in Themes
             THEN {ok([s EXCEPT !.lang = lab.v, !.theme = lab.w])} ELSE {rej(s)}
@@ -237,7 +256,7 @@ Alt1 == [ups |-> "B", boot |-> "b1", blk |-> "nxdomain", blkttl |-> "t77", prot 
          upmode |-> "parallel", lptr |-> "L", useptr |-> "on", uto |-> "3", fcfg |-> "off-24",
          rules |-> "r1", lists |-> [L1 |-> "on", L2 |-> "absent"], sb |-> "on", par |-> "on", ss |-> "all",
          rw |-> {"r1"}, svc |-> "s1", acc |-> "host", cl |-> [c1 |-> "a", c2 |-> "absent"],
-         qlog |-> "anon", stats |-> "off", lang |-> "de", theme |-> "dark"]
+         qlog |-> "anon", stats |-> "off", lang |-> "de", theme |-> "dark", dhcp |-> "cfg1", leases |-> {"l1"}]
 
 Diff(s) == {c \in Comps : s[c] # Init0[c]}
 Bounded(s) ==
@@ -362,5 +381,5 @@ AcceptedEverywhere == [][last' = "ok" => (running' = file' /\ reported' = file')
 
 \* Every component always holds a value of its type.
 TypeOK == /\ \A c \in Scalars : running[c] \in (Good[c] \cup Extra[c] \cup Silent[c] \cup {Init0[c]} \cup {"offng"})
-          /\ running.rw \subseteq {"r1", "r2", "r3"}
+          /\ running.rw \subseteq {"r1", "r2", "r3"} /\ running.leases \subseteq Leases
 =============================================================================
